@@ -11,6 +11,7 @@ CLASSES = {
         "_tokengen": "gen[Tok]", "_tokens": "seq[Tok]", "_index": "int", "_verbose": "bool", "_lines": "map", "_path": "str",
         "_stack": "seq[Tok]", "_call_macro": "bool", "_with_macro": "bool", "_proc_macro": "bool",
         "_end_parens": "initdict",      # constant dict literal, read from the real __init__
+        "_not_body": "initset",         # constant set of Token members, read from the real __init__
         "_abs": "pabs",      # ghost: everything else a rule method may depend on (never read by the verified code)
         "__methods__": (),
     },
